@@ -22,20 +22,29 @@ def run(cx):
         calls = b.calls('TriMesh::intersection_with_local_plane')
         ok = len(calls) == 1 and match('(field normal (param plane))', cx.arg(calls[0], 1)) is not None and match('(field d (param plane))', cx.arg(calls[0], 2)) is not None
         cx.ob('EXPR', 'Mesh::section:plane', ok, 'normal and offset of the same plane reach the intersection routine', where=b.file)
-        fp = b.calls('geom3::curve3::Curve3::from_points')
-        okf = len(fp) == 1
-        if okf:
-            s = fp[0]
-            okf = match('(call Option::unwrap_or (param tol) 1e-06)', cx.arg(s, 1)) is not None
-            pts = cx.arg(s, 0)
-            e = match('(call Iterator::collect (call Iterator::map $chain (closure * $pl)))', pts)
-            okf = okf and e is not None and match('(itervar (call *chained_indices (call Polyline::indices $pl)))', e['chain'], e) is not None
+        # the collected curves as a comprehension over the chains (push loop or extend(filter_map) alike); each curve's points as a
+        # comprehension over one chain
+        from vpa import comp as CMP
+        r = cx.retval(b)
+        ev = match('(agg *Result::Ok (0 $v))', r)
+        comps = [c for c in CMP.comprehensions(cx, b, ev['v']) if c.get('elem') is not None] if ev else []
+        okf = okv = okp = False
+        if len(comps) == 1:
+            c = comps[0]
+            CH = '(call *chained_indices (call Polyline::indices $pl))'
+            e = match('(unwrap (call *Curve3::from_points $pts (call Option::unwrap_or (param tol) 1e-06)))', c['elem'])
+            esrc = match(CH, c['src']) if c['src'] else None
+            if e is not None and esrc is not None:
+                inner = CMP._chain(cx.facts, match('(call Iterator::collect $ch)', e['pts'])['ch']) if match('(call Iterator::collect $ch)', e['pts']) else None
+                if inner and len(inner) == 1:
+                    S, el, cnd = inner[0]
+                    # one chain of the SAME chained_indices list, in chain order, nothing filtered
+                    okf = match(f'(index {CH} _)', S, esrc) is not None and not cnd
+                    okv = match('(index (call Polyline::vertices $pl) (index $s _))', el, {'pl': esrc['pl'], 's': S}) is not None
+            okp = len(c['conds']) == 1 and CMP.has_cond(c, '(is (call *Curve3::from_points _ _) Ok)', True)
         cx.ob('EXPR', 'Mesh::section:curves', okf, 'each curve is built from the vertices of ONE chain of chained_indices(pline.indices()), in chain order, with tol.unwrap_or(1e-6)', where=b.file)
-        for cl in cx.facts.closures_of(b.name):
-            cx.expect('EXPR', 'Mesh::section:vertex-lookup', cx.retval(cl), '(index (call Polyline::vertices (field cap:pline (param 1))) (param 2))', 'chain entry i maps to pline.vertices()[i]', where=cl.file)
-        pushes = b.calls('Vec::push')
-        okp = len(pushes) == 1 and cx.guarded(b, pushes[0].bb, '(is (call *Curve3::from_points _ _) Ok)', True) is not None
-        cx.ob('GUARD', 'Mesh::section:collect', okp, 'every chain that forms a valid curve is collected', where=b.file)
+        cx.ob('EXPR', 'Mesh::section:vertex-lookup', okv, 'chain entry i maps to pline.vertices()[i]', where=b.file)
+        cx.ob('GUARD', 'Mesh::section:collect', okp, 'every chain that forms a valid curve is collected (the only condition is that from_points succeeds)', where=b.file)
     # the only filter between the chained crossing vertices and the returned curve is the duplicate filter of Curve3::from_points
     b = cx.fn('geom3::curve3::Curve3::from_points')
     if b:
